@@ -60,19 +60,23 @@ def run_case(args):
                 fh.write("%d %.6g %.6g\n" % (k, rr.uniform(0, 20) if k <= P["wake_N"] // 2 else 0, rr.uniform(-20, 20) if k <= P["wake_N"] // 2 else 0))
         base["Impedance"] = os.path.join(gd, "imp.dat")
 
-    def go(name, extra, T):
+    def go(name, extra, T, fname="out.h5"):
         wd = os.path.join(gd, name)
         os.makedirs(wd, exist_ok=True)
-        oo = dict(base); oo.update(extra); oo["rotations"] = T; oo["output"] = "out.h5"
+        oo = dict(base); oo.update(extra); oo["rotations"] = T; oo["output"] = fname
         res = prog.run_inovesa("rel", oo, wd, xdg, timeout=900)
         bad = prog.program_outcome_key(res)
-        if bad or res["rc"] != 0 or not os.path.exists(os.path.join(wd, "out.h5")):
+        if bad or res["rc"] != 0 or not os.path.exists(os.path.join(wd, fname)):
             return None, res
-        return prog.H5(os.path.join(wd, "out.h5")), res
+        return prog.H5(os.path.join(wd, fname)), res
+
+    # the results file of the first leg carries either of the two documented endings
+    leg1name = "out.hdf5" if i % 3 == 1 else "out.h5"
+    out["hdf5_ending"] = leg1name.endswith(".hdf5")
 
     go("warm", dict(outstep=0), 0.01)
     full, rf = go("full", dict(outstep=1, SavePhaseSpace=1), T1 + T2)
-    leg1, r1 = go("leg1", dict(outstep=o1, SavePhaseSpace=1), T1)
+    leg1, r1 = go("leg1", dict(outstep=o1, SavePhaseSpace=1), T1, fname=leg1name)
     if full is None or leg1 is None:
         out["incon"].append("case %d: full or first leg did not run: %s" % (i, (rf["err"] + r1["err"])[-200:]))
         return out
@@ -84,7 +88,7 @@ def run_case(args):
     if ren > 0 and s_k % ren != 0:
         k = 0
         s_k = int(ps1[0])
-    leg2, r2 = go("leg2", dict(outstep=1, SavePhaseSpace=1, InitialDistFile=os.path.join(gd, "leg1", "out.h5"), InitialDistStep=k), T2)
+    leg2, r2 = go("leg2", dict(outstep=1, SavePhaseSpace=1, InitialDistFile=os.path.join(gd, "leg1", leg1name), InitialDistStep=k), T2)
     if leg2 is None:
         out["viol"].append(("C11:continue_failed", "continuing from a valid results file did not run", dict(base=base, stderr=r2["err"][-500:], cmd=" ".join(r2["argv"]))))
         return out
@@ -195,6 +199,8 @@ def run(ctx):
     for res in core.pmap(run_case, [(ctx, i, sdir) for i in range(n)]):
         ctx.case(res["sig"])
         ctx.ev("states_compared", res["compared"])
+        if res.get("hdf5_ending"):
+            ctx.ev("continuations_from_a_file_with_hdf5_ending")
         if res.get("exact"):
             ctx.ev("bit_exact_continuations")
         elif "worst" in res:
